@@ -324,11 +324,12 @@ PROPS["C03"] = {
     "lean": ["C03"],
     "required": ["C03.c03_release_only_when_gone_and_confirmed", "C03.c03_release_when_gone_and_confirmed", "C03.c03_release_keeps_existing",
                  "C03.c03_release_changes_binding_only", "C03.c03_release_needs_runtime", "C03.c03_trim_only_idle", "C03.c03_assign_never_unbinds",
-                 "C03.c03_agent_ignores_stale_del"],
-    "rule": _IP_RULE + " Node-agent side: the daemon world of C04 (real networkService) with an observing network interface that records the pod UID every Release is reported for, over histories in which pods are re-created under the same name while DELs for old sandboxes arrive.",
+                 "C03.c03_agent_ignores_stale_del",
+                 "C03.c03_agent_reports_only_processed_or_verified", "C03.c03_agent_clean_needs_absent", "C03.c03_agent_processed_del_reported"],
+    "rule": _IP_RULE + " Node-agent side: the daemon world of C04 (real networkService) with an observing network interface that records the pod UID every Release is reported for, over histories in which pods are re-created under the same name while DELs for old sandboxes arrive; and 150 / 3000 node-agent histories (ops rt.*, harness/vh/agent.go) of 3-9 steps over 4 pod UIDs on the REAL CRDV2.Release / syncNodeRuntime / syncDeletedPods and the REAL cleanRuntimeNode (real k8s adapter, fake API server): processed DELs, report passes, IPAM-record changes, clean-up passes with per-pod answers present / absent (incl. a same-named pod on another node) / look-up failure, locally recorded UIDs, 60 s ageing, malformed pod ids, 15% of the NodeRuntime writes failing; the stored NodeRuntime and the pending set are compared with Model/Agent.lean after every step.",
     "technique": "Lean 4: releasePodNotFound modelled as a total function with theorems for all records/pods/runtime reports; trimming as a relation with theorems about everything it admits; differential correspondence of the real functions; daemon-side monitor on the UID teardown is reported for",
-    "level_text": "Theorems: an address is unbound only when its pod is not on the node and (unless the binding has no UID) the node agent's latest report for that UID is 'deleted', and then it is unbound; an existing pod keeps its address; an unreadable NodeRuntime releases nothing; trimming marks only unbound non-primary addresses and gives an interface up only when nothing on it is bound; the assignment step never unbinds; the agent ignores a DEL for a stale sandbox. The two-process protocol (lost / delayed / duplicated NodeRuntime updates, API write failures) is covered only as 'any NodeRuntime content': partial.",
-    "level_note": "Trusted: Lean kernel; fake API objects. Not modelled: the daemon's periodic syncDeletedPods / cleanRuntimeNode bookkeeping, unassignment in handleStatus (it unassigns every entry marked Deleting; that marked entries are unbound is the trim theorem).",
+    "level_text": "Theorems: an address is unbound only when its pod is not on the node and (unless the binding has no UID) the node agent's latest report for that UID is 'deleted', and then it is unbound; an existing pod keeps its address; an unreadable NodeRuntime releases nothing; trimming marks only unbound non-primary addresses and gives an interface up only when nothing on it is bound; the assignment step never unbinds; the agent ignores a DEL for a stale sandbox; in every history of the node agent's passes a pod UID is reported as torn down only after its DEL was processed or the API server answered that the pod is gone (a failed look-up reports nothing), and a processed DEL is reported by the next successful pass. The two-process protocol (lost / delayed / duplicated NodeRuntime updates, API write failures) is covered only as 'any NodeRuntime content': partial.",
+    "level_note": "Trusted: Lean kernel; fake API objects. The node agent's NodeRuntime object is assumed to exist (its creation by the first pass goes through the API server dropping the status of a created object, not exercised); stamps are compared at one-second resolution. Not modelled: unassignment in handleStatus (it unassigns every entry marked Deleting; that marked entries are unbound is the trim theorem).",
     "assumptions": _IP_ASSUME, "trusted_base": _IP_TRUST + ["daemon world (see C04)"], "design_ref": "DESIGN.md §4 C03",
     "timeout_quick": 1200, "timeout_thorough": 5400,
 }
